@@ -176,7 +176,19 @@ func (ex *Exec) varSpecs(st *State, specs []ast.Spec, k func(*State)) {
 			if obj == nil {
 				continue
 			}
-			ex.declare(st, obj, ex.zeroVal(substType(obj.Type(), fr.tsub)))
+			vt := substType(obj.Type(), fr.tsub)
+			if at, ok := types.Unalias(vt).Underlying().(*types.Array); ok {
+				// a local array variable: a fresh zeroed array of its declared length (arrays are
+				// modelled as slices over their own backing array; before this the zero Slice - nil,
+				// length 0 - stood in for it, which made `buf[:]` empty and writes to it look like
+				// writes to the nil array)
+				n := fmt.Sprint(at.Len())
+				v := ex.makeSlice(st, vt, at.Elem(), n, n)
+				v.Go = vt
+				ex.declare(st, obj, v)
+				continue
+			}
+			ex.declare(st, obj, ex.zeroVal(vt))
 		}
 		rest(st)
 		return
